@@ -309,5 +309,16 @@ func TestDumpIsASnapshot(t *testing.T) {
 		c := ecs.NewWorld(caps[0], caps[1])
 		c.Unsafe().LoadEntities(&dump)
 		check("third load of the same dump", c)
+		// save / restore in place: the dump goes back into its own source world after a Reset
+		// (whatever that world did in between), and allocation continues as in a fresh load
+		w.Reset()
+		w.Unsafe().LoadEntities(&dump)
+		check("load into the reset source world", w)
+		for j := 0; j < 1+r.Intn(40); j++ {
+			x, y := w.NewEntity(), c.NewEntity()
+			if x != y {
+				t.Fatalf("VERIF-REPLAY seed=%d k=%d: creation #%d after restoring in place: source world %v, fresh load %v", seed(), k, j, x, y)
+			}
+		}
 	}
 }
